@@ -721,6 +721,7 @@ func TestVerifC02(t *testing.T) {
 	c02Long(c)
 	c02Clones(c)
 	c02Files(c, mc.Pick(c, 2, 3))
+	c02Reset(c)
 	if code := c.Finish(); code != 0 {
 		os.Exit(code)
 	}
